@@ -428,8 +428,10 @@ fn test_sets(c: &SetsCase, stats: &Stats) -> CaseResult {
         check_raw(s, stats, &mut fmts)?;
     }
     if fmts[0] && fmts[1] {
-        stats.nontrivial(hash_json(c));
-        if stats.want_sample() {
+        let h = hash_json(c);
+        stats.nontrivial(h);
+        stats.class("nontrivial:sets");
+        if h % 1500 == 0 && stats.want_sample() {
             stats.sample(serde_json::json!({"stage": "sets", "coverage_sets": c.covs.iter().map(|s| gset(&s.set).len()).collect::<Vec<_>>(), "classdef_builders": c.cls.len(), "from_iter": c.raw.len()}));
         }
     }
@@ -561,6 +563,8 @@ struct GposCase {
     qsel: u32,
     /// query budget per lookup
     budget: u32,
+    /// 0 small, 1 medium, 2 large (generator tier)
+    tier: u8,
 }
 
 const REGION_AXES: [(i16, i16, i16); 6] = [(0, 0x4000, 0x4000), (-0x4000, -0x4000, 0), (0, 0x2000, 0x4000), (0x2000, 0x4000, 0x4000), (-0x4000, -0x2000, 0), (0, 0, 0)];
@@ -1508,6 +1512,8 @@ fn check_mark_lookup(li: usize, c: &GposCase, pal: &Pal, bs: &[MBModel], subs: &
     Ok(())
 }
 
+static EXCLUDED: std::sync::atomic::AtomicU64 = std::sync::atomic::AtomicU64::new(0);
+
 fn test_gpos(c: &GposCase, stats: &Stats) -> CaseResult {
     let mut intern = Interner::new();
     let pal = Pal::new(c, &mut intern);
@@ -1519,6 +1525,7 @@ fn test_gpos(c: &GposCase, stats: &Stats) -> CaseResult {
     let mut models: Vec<LModel> = Vec::new();
     let mut lookups: Vec<PositionLookup> = Vec::new();
     let mut pre_counts: Vec<usize> = Vec::new();
+    let mut pre_f1: Vec<usize> = Vec::new();
     let (mut n_pair_rules, mut n_class_rules, mut n_dup, mut n_marks, mut n_bases) = (0usize, 0usize, 0u32, 0usize, 0usize);
     for l in &c.lookups {
         let flag = lookup_flag(l);
@@ -1543,11 +1550,19 @@ fn test_gpos(c: &GposCase, stats: &Stats) -> CaseResult {
                 }
                 let lk = LookupBuilder::<PairPosBuilder>::new_with_lookups(flag, l.mark_set, builders).build(&mut vs);
                 pre_counts.push(lk.subtables.len());
+                pre_f1.push(lk.subtables.iter().filter(|s| matches!(s.as_ref(), write_fonts::tables::gpos::PairPos::Format1(_))).count());
                 lookups.push(PositionLookup::Pair(lk));
                 models.push(LModel::Pair(ms));
             }
             LKind::Mark(mbs) => {
-                let ms: Vec<MBModel> = mbs.iter().map(|b| mb_model(b, &pal)).collect();
+                let mut ms: Vec<MBModel> = mbs.iter().map(|b| mb_model(b, &pal)).collect();
+                if c.tier > 0 {
+                    // known finding: a MarkToBase subtable without marks panics the splitter (mark2base.rs chunks_exact(0))
+                    // whenever the GPOS overflows; such builders are left out of cases that can overflow
+                    let before = ms.len();
+                    ms.retain(|m| !m.marks.is_empty());
+                    EXCLUDED.fetch_add((before - ms.len()) as u64, std::sync::atomic::Ordering::Relaxed);
+                }
                 let mut builders = Vec::new();
                 for m in &ms {
                     let mut b = MarkToBaseBuilder::default();
@@ -1579,6 +1594,7 @@ fn test_gpos(c: &GposCase, stats: &Stats) -> CaseResult {
                 }
                 let lk = LookupBuilder::<MarkToBaseBuilder>::new_with_lookups(flag, l.mark_set, builders).build(&mut vs);
                 pre_counts.push(lk.subtables.len());
+                pre_f1.push(0);
                 lookups.push(PositionLookup::MarkToBase(lk));
                 models.push(LModel::Mark(ms));
             }
@@ -1634,6 +1650,13 @@ fn test_gpos(c: &GposCase, stats: &Stats) -> CaseResult {
                 }
                 if split {
                     stats.class("split:pairpos-lookup");
+                    let f1 = subs.iter().filter(|s| matches!(s, PSub::F1 { .. })).count();
+                    if f1 > pre_f1[li] {
+                        stats.class("split:pairpos-format1-subtable");
+                    }
+                    if subs.len() - f1 > pre_counts[li] - pre_f1[li] {
+                        stats.class("split:pairpos-format2-subtable");
+                    }
                 }
                 check_pair_lookup(li, c, &pal, bs, subs, &mut rs, &mut tally, &how)?;
             }
@@ -1671,6 +1694,7 @@ fn test_gpos(c: &GposCase, stats: &Stats) -> CaseResult {
     }
     if any_ext || any_split {
         stats.nontrivial(hash_json(c));
+        stats.class("nontrivial:gpos");
         if stats.want_sample() {
             stats.sample(serde_json::json!({"stage": "gpos", "bytes": bytes.len(), "lookups": shape, "pair_rules": n_pair_rules, "class_rules": n_class_rules, "marks": n_marks, "base_anchors": n_bases, "queries": tally.queries}));
         }
@@ -1798,7 +1822,7 @@ fn gpos_strategy(t: u8, budget: u32) -> BoxedStrategy<GposCase> {
             .boxed(),
     };
     (1u8..3, regions, dsets, devs, vals_strategy(), proptest::collection::vec(aspec(), 1..6), lookups, proptest::collection::vec(glyph(), 0..6), any::<u32>())
-        .prop_map(move |(axes, regions, dsets, devs, vals, anchors, lookups, strangers, qsel)| GposCase { axes, regions, dsets, devs, vals, anchors, lookups, strangers, qsel, budget })
+        .prop_map(move |(axes, regions, dsets, devs, vals, anchors, lookups, strangers, qsel)| GposCase { axes, regions, dsets, devs, vals, anchors, lookups, strangers, qsel, budget, tier: t })
         .boxed()
 }
 
@@ -1815,5 +1839,6 @@ fn main() {
     ctx.prop_stage("gpos-small", Isolation::Threads, ctx.n(300, 6_000), move || gpos_strategy(0, budget), test_gpos);
     ctx.prop_stage("gpos-medium", Isolation::Threads, ctx.n(48, 700), move || gpos_strategy(1, budget), test_gpos);
     ctx.prop_stage("gpos-large", Isolation::Threads, ctx.n(16, 200), move || gpos_strategy(2, budget), test_gpos);
+    ctx.excluded_known(EXCLUDED.load(std::sync::atomic::Ordering::Relaxed));
     ctx.finish();
 }
